@@ -22,11 +22,55 @@ def register(gt):
         ns = [node.value.value for node in ast.walk(tree)
               if isinstance(node, ast.Assign) and len(node.targets) == 1 and isinstance(node.targets[0], ast.Name)
               and node.targets[0].id == "n" and isinstance(node.value, ast.Constant) and isinstance(node.value.value, int)]
-        assert len(ns) == 1, "to_master_key: expected exactly one literal assignment to n, found %r" % (ns,)
         keys = [node.args[0].value for node in ast.walk(tree)
                 if isinstance(node, ast.Call) and isinstance(node.func, ast.Attribute) and node.func.attr == "new"
                 and node.args and isinstance(node.args[0], ast.Constant) and isinstance(node.args[0].value, bytes)]
-        assert len(keys) == 1, "to_master_key: expected one hmac.new(<bytes literal>, ...), found %r" % (keys,)
+        mode = "syntactic"
+        if len(ns) != 1 or len(keys) != 1:
+            # behavioural fallback (the literals were moved / replaced by imported constants): observe the key handed to
+            # hmac.new, and find the bound by bisection on forced I_L values - to_master_key accepts I_L iff 0 < I_L < n
+            import hmac as _hmac
+            seen_keys = []
+            forced = {"IL": 1}
+            real_new = _hmac.new
+
+            class _Fake:
+                def digest(self):
+                    return forced["IL"].to_bytes(32, "big") + bytes(32)
+
+            def spy(key, *a, **k):
+                seen_keys.append(bytes(key))
+                return _Fake()
+            patched = [(_hmac, "new")] + [(m, k_) for k_, v_ in vars(m).items() if v_ is real_new]
+            try:
+                for obj, k_ in patched:
+                    setattr(obj, k_, spy)
+
+                def accepted(il):
+                    forced["IL"] = il
+                    try:
+                        m.to_master_key(b"\x00" * 16)
+                        return True
+                    except Exception:
+                        return False
+                assert accepted(1) and not accepted(0) and not accepted(2 ** 256 - 1), "to_master_key: unexpected acceptance pattern"
+                lo, hi = 1, 2 ** 256 - 1          # accepted(lo), not accepted(hi)
+                while hi - lo > 1:
+                    mid = (lo + hi) // 2
+                    if accepted(mid):
+                        lo = mid
+                    else:
+                        hi = mid
+                # spot-check monotonicity around the boundary and far from it
+                assert all(accepted(v) for v in (2, lo - 1, lo // 2, lo // 3)) and not any(accepted(v) for v in (hi + 1, hi + 2 ** 200))
+            finally:
+                for obj, k_ in patched:
+                    setattr(obj, k_, real_new)
+            ns = [hi]
+            keys = sorted(set(seen_keys))
+            assert len(keys) == 1, "to_master_key: hmac.new called with several keys %r" % (keys,)
+            mode = "behavioural probe (hmac.new observed, bound found by bisection on forced I_L)"
+        out += "(* translator_mode: to_master_key constants %s *)\n" % mode
         out += "Definition master_n : Z := %s.\n" % gt.coq_Z(ns[0])
         out += "Definition master_hmac_key : bytes := %s.\n" % gt.coq_bytes(keys[0])
         return out
